@@ -122,15 +122,23 @@ theorem requestSegInto_spec (fl : α → Int) (ix : Index α) (tab out : List Na
     ∃ p1 p2, getCell ix a = some p1 ∧ getCell ix b = some p2 ∧ (∀ x ∈ tab, x ∈ out) ∧
       ∀ cell ∈ cellsCross fl p1 p2, ∀ d, Holds ix.grid cell.1 cell.2 d → d ∈ out := by
   unfold requestSegInto at h
-  cases h1 : getCell ix a with
-  | none => simp [h1] at h
-  | some p1 =>
-    cases h2 : getCell ix b with
-    | none => simp [h1, h2] at h
-    | some p2 =>
-      simp only [h1, h2] at h
-      obtain ⟨t1, t2⟩ := collectCells_spec ix _ tab out h
-      exact ⟨p1, p2, rfl, rfl, t1, t2⟩
+  cases r1 : getCellR ix a with
+  | error e => simp [r1] at h
+  | ok o1 =>
+    cases r2 : getCellR ix b with
+    | error e => simp [r1, r2] at h
+    | ok o2 =>
+      have e1 := getCellR_ok ix a o1 r1
+      have e2 := getCellR_ok ix b o2 r2
+      cases o1 with
+      | none => simp [r1, r2] at h
+      | some p1 =>
+        cases o2 with
+        | none => simp [r1, r2] at h
+        | some p2 =>
+          simp only [r1, r2] at h
+          obtain ⟨t1, t2⟩ := collectCells_spec ix _ tab out h
+          exact ⟨p1, p2, e1.symm, e2.symm, t1, t2⟩
 
 omit [IsStrictOrderedRing α] in
 theorem requestTrackLoop_spec (fl : α → Int) (ix : Index α) (track : List (α × α)) (prev : Option (α × α))
